@@ -48,7 +48,8 @@ type probe struct {
 
 // caseInput is everything needed to re-run one case (replay).
 type caseInput struct {
-	Kind     string                     `json:"kind"` // doc | cred | failing
+	Kind     string                     `json:"kind"`            // doc | cred | failing | switch
+	Prime    json.RawMessage            `json:"prime,omitempty"` // switch: what the URLs of Loader served BEFORE (same context bytes, other content)
 	Doc      json.RawMessage            `json:"doc"`
 	Ctx      json.RawMessage            `json:"ctx"`
 	Loader   map[string]json.RawMessage `json:"loader,omitempty"`
@@ -231,6 +232,26 @@ func (d *drv) runCase(in *caseInput) {
 		_ = d.loader.Add(u, b)
 	}
 	o := d.opts()
+	if in.Kind == "switch" && in.Prime != nil {
+		// the same context bytes were resolved before, when the loader served other content:
+		// the resolvers must not remember that answer
+		for u := range in.Loader {
+			_ = d.loader.Add(u, in.Prime)
+		}
+		for _, lf := range in.Leaves {
+			full := strings.Join(append([]string{lf.TypeTerm}, lf.Rel...), ".")
+			_, _ = o.PathFromContext(in.Ctx, full)
+			_, _ = o.FieldPathFromContext(in.Ctx, lf.TypeTerm, strings.Join(lf.Rel, "."))
+			_, _ = o.TypeFromContext(in.Ctx, strings.Join(append([]string{lf.TypeTerm}, noIndices(lf.Rel)...), "."))
+			_, _ = o.NewPathFromDocument(in.Doc, strings.Join(lf.DocPath, "."))
+		}
+		for _, ni := range in.Nodes {
+			_, _ = o.TypeIDFromContext(in.Ctx, ni.TypeTerm)
+		}
+		for u, b := range in.Loader {
+			_ = d.loader.Add(u, b)
+		}
+	}
 	mz, mo := mzrun.Merklize(in.Doc, merklize.WithDocumentLoader(d.loader))
 	d.rep.Count("merklize:" + mo.Class)
 	var stored map[string]mzrun.EntryView
@@ -468,6 +489,26 @@ func (d *drv) runCase(in *caseInput) {
 	if in.Kind == "cred" {
 		d.credOracle(in, c)
 	}
+	if in.Kind == "switch" && len(in.Leaves) > 0 && (in.Only == "" || in.Only == "reload") {
+		// ... and when the loader can no longer serve the context, they must fail
+		for u := range in.Loader {
+			d.loader.Fail[u] = true
+		}
+		lf := in.Leaves[0]
+		full := strings.Join(append([]string{lf.TypeTerm}, lf.Rel...), ".")
+		if p, err := o.PathFromContext(in.Ctx, full); err == nil {
+			d.fail(in, "c11-context-not-reloaded", fmt.Sprintf("PathFromContext(%s) = %v although the context can no longer be loaded", full, p.Parts()), "reload")
+		}
+		if s, err := o.TypeFromContext(in.Ctx, strings.Join(append([]string{lf.TypeTerm}, noIndices(lf.Rel)...), ".")); err == nil {
+			d.fail(in, "c11-context-not-reloaded", fmt.Sprintf("TypeFromContext = %q although the context can no longer be loaded", s), "reload")
+		}
+		if s, err := o.TypeIDFromContext(in.Ctx, lf.TypeTerm); err == nil {
+			d.fail(in, "c11-context-not-reloaded", fmt.Sprintf("TypeIDFromContext = %q although the context can no longer be loaded", s), "reload")
+		}
+		for u := range in.Loader {
+			delete(d.loader.Fail, u)
+		}
+	}
 	b, _ := json.Marshal(struct {
 		D json.RawMessage
 		C json.RawMessage
@@ -544,6 +585,22 @@ func (d *drv) fromDoc(g *gen, gd *gdoc) *caseInput {
 		}
 	}
 	return in
+}
+
+// switchCase: the context document handed to the context-side resolvers only imports a URL; the same bytes
+// are resolved twice, the loader serving different content in between (and finally nothing).
+func (d *drv) switchCase(g *gen) *caseInput {
+	g.alias, g.prefix = g.r.Intn(2) == 0, g.r.Intn(2) == 0
+	t := g.schema(1+g.r.Intn(2), "")
+	gd := g.build(t)
+	d.nURL++
+	url := fmt.Sprintf("https://ctx.example/c11/switch-%d.jsonld", d.nURL)
+	now := mustJSON(gd.CtxDoc)
+	before := bytes.ReplaceAll(now, []byte("http://ex.org/v#"), []byte("http://ex.org/before#"))
+	gd.Obj["@context"] = url
+	return &caseInput{Kind: "switch", Doc: mustJSON(gd.Obj), Ctx: mustJSON(map[string]any{"@context": url}),
+		Loader: map[string]json.RawMessage{url: now}, Prime: before, Leaves: gd.Leaves, Nodes: gd.Nodes,
+		Features: append(sortedKeys(gd.Features), "loader-switch")}
 }
 
 // failing: contexts that cannot be loaded (top-level URL, or the URL of a scoped context).
@@ -765,8 +822,9 @@ func Run(cfg *common.Config) (*common.Report, error) {
 	for i := 0; i < cfg.Pick(16, 300); i++ {
 		d.runCase(d.credCase(g))
 	}
+	for i := 0; i < cfg.Pick(10, 200); i++ {
+		d.runCase(d.switchCase(g))
+	}
 	sort.Strings(rep.Notes)
 	return rep, d.writeShards()
 }
-
-var _ = bytes.NewReader
